@@ -13,28 +13,111 @@ pub enum PType {
     Histogram,
 }
 
+/// f64 values are stored as bit patterns in plans/replay files (JSON has no NaN / infinity).
+pub mod fbits {
+    use serde::{Deserialize, Deserializer, Serialize, Serializer};
+    pub fn enc(v: f64) -> String {
+        if v.is_finite() && v.to_string().parse::<f64>().map(|x| x.to_bits() == v.to_bits()).unwrap_or(false) {
+            v.to_string()
+        } else {
+            format!("bits:{:016x}", v.to_bits())
+        }
+    }
+    pub fn dec(s: &str) -> Result<f64, String> {
+        match s.strip_prefix("bits:") {
+            Some(h) => u64::from_str_radix(h, 16).map(f64::from_bits).map_err(|e| e.to_string()),
+            None => s.parse::<f64>().map_err(|e| e.to_string()),
+        }
+    }
+    pub fn serialize<S: Serializer>(v: &f64, s: S) -> Result<S::Ok, S::Error> {
+        enc(*v).serialize(s)
+    }
+    pub fn deserialize<'de, D: Deserializer<'de>>(d: D) -> Result<f64, D::Error> {
+        dec(&String::deserialize(d)?).map_err(serde::de::Error::custom)
+    }
+    pub mod opt {
+        use serde::{Deserialize, Deserializer, Serialize, Serializer};
+        pub fn serialize<S: Serializer>(v: &Option<f64>, s: S) -> Result<S::Ok, S::Error> {
+            v.map(super::enc).serialize(s)
+        }
+        pub fn deserialize<'de, D: Deserializer<'de>>(d: D) -> Result<Option<f64>, D::Error> {
+            match Option::<String>::deserialize(d)? {
+                Some(x) => super::dec(&x).map(Some).map_err(serde::de::Error::custom),
+                None => Ok(None),
+            }
+        }
+    }
+    pub mod pairs_fu {
+        use serde::{Deserialize, Deserializer, Serialize, Serializer};
+        pub fn serialize<S: Serializer>(v: &Vec<(f64, u64)>, s: S) -> Result<S::Ok, S::Error> {
+            v.iter().map(|(a, b)| (super::enc(*a), *b)).collect::<Vec<_>>().serialize(s)
+        }
+        pub fn deserialize<'de, D: Deserializer<'de>>(d: D) -> Result<Vec<(f64, u64)>, D::Error> {
+            let v: Vec<(String, u64)> = Vec::deserialize(d)?;
+            v.into_iter().map(|(a, b)| super::dec(&a).map(|a| (a, b)).map_err(serde::de::Error::custom)).collect()
+        }
+    }
+    pub mod pairs_ff {
+        use serde::{Deserialize, Deserializer, Serialize, Serializer};
+        pub fn serialize<S: Serializer>(v: &Vec<(f64, f64)>, s: S) -> Result<S::Ok, S::Error> {
+            v.iter().map(|(a, b)| (super::enc(*a), super::enc(*b))).collect::<Vec<_>>().serialize(s)
+        }
+        pub fn deserialize<'de, D: Deserializer<'de>>(d: D) -> Result<Vec<(f64, f64)>, D::Error> {
+            let v: Vec<(String, String)> = Vec::deserialize(d)?;
+            v.into_iter().map(|(a, b)| Ok((super::dec(&a).map_err(serde::de::Error::custom)?, super::dec(&b).map_err(serde::de::Error::custom)?))).collect()
+        }
+    }
+    pub mod list {
+        use serde::{Deserialize, Deserializer, Serialize, Serializer};
+        pub fn serialize<S: Serializer>(v: &Vec<f64>, s: S) -> Result<S::Ok, S::Error> {
+            v.iter().map(|a| super::enc(*a)).collect::<Vec<_>>().serialize(s)
+        }
+        pub fn deserialize<'de, D: Deserializer<'de>>(d: D) -> Result<Vec<f64>, D::Error> {
+            let v: Vec<String> = Vec::deserialize(d)?;
+            v.into_iter().map(|a| super::dec(&a).map_err(serde::de::Error::custom)).collect()
+        }
+    }
+}
+
 #[derive(Clone, Debug, PartialEq, Serialize, Deserialize)]
 pub struct PHist {
     pub count: u64,
+    #[serde(with = "fbits")]
     pub sum: f64,
     /// (upper bound, cumulative count)
+    #[serde(with = "fbits::pairs_fu")]
     pub buckets: Vec<(f64, u64)>,
 }
 #[derive(Clone, Debug, PartialEq, Serialize, Deserialize)]
 pub struct PSummary {
     pub count: u64,
+    #[serde(with = "fbits")]
     pub sum: f64,
+    #[serde(with = "fbits::pairs_ff")]
     pub quantiles: Vec<(f64, f64)>,
 }
 #[derive(Clone, Debug, PartialEq, Serialize, Deserialize, Default)]
 pub struct PMetric {
     pub labels: Vec<(String, String)>,
     pub ts: i64,
+    #[serde(with = "fbits::opt")]
     pub counter: Option<f64>,
+    #[serde(with = "fbits::opt")]
     pub gauge: Option<f64>,
+    #[serde(with = "fbits::opt")]
     pub untyped: Option<f64>,
     pub hist: Option<PHist>,
     pub summary: Option<PSummary>,
+}
+
+/// Equality of floats as the exposition formats preserve them: NaN equals NaN (class), everything
+/// else bit for bit (so -0.0 differs from 0.0). `exact_nan` also compares NaN payload bits.
+pub fn feq(a: f64, b: f64, exact_nan: bool) -> bool {
+    if a.is_nan() && b.is_nan() && !exact_nan {
+        true
+    } else {
+        a.to_bits() == b.to_bits()
+    }
 }
 #[derive(Clone, Debug, PartialEq, Serialize, Deserialize)]
 pub struct PFamily {
